@@ -298,6 +298,12 @@ class ParametricTransform:
         # A link to another transformation is registered as child module, remove it
         # such that data_() can set a parameter tensor again afterwards.
         self._modules.pop("params", None)
+        if "params" in self._parameters:
+            # Release parameter name such that data_() can assign any tensor afterwards (as for a
+            # transformation created with params=None), without modifying the container of parameters
+            # shared with other shallow copies
+            self._parameters = self._parameters.copy()
+            del self._parameters["params"]
         self.params = None
         if hasattr(self, "p"):
             delattr(self, "p")
